@@ -6,6 +6,8 @@
 // The module directory is located the way the Go build of <repo-dir> locates it
 // (`go list -m -f '{{.Dir}}' github.com/dchest/blake512`, GOFLAGS=-mod=mod GOPROXY=off), blake512block.go is
 // parsed with go/parser and `<gen-dir>/BlakeBlock.lean` (namespace I3.Gen.BlakeGo, core Lean only) is written.
+// A second module, `<gen-dir>/BlakeDigest.lean`, holds the translation of `New`, `(*digest).Size`, `(*digest).Write`
+// and `(*digest).Sum` of blake512.go: see digest.go (same exit-code convention: 2 = construct outside the subset).
 //
 // What is translated, and how
 //
@@ -1074,4 +1076,7 @@ func main() {
 		os.Exit(1)
 	}
 	fmt.Printf("gen_blake: wrote %s (%d bytes), source sha256 %x\n", outPath, b.Len(), sum)
+
+	// second module: New / Size / Write / Sum of blake512.go (digest.go)
+	genDigest(dir, gen, blockSize, f)
 }
